@@ -9,6 +9,7 @@ import RoModel.Drivers.Chain
 import RoModel.Drivers.Cancel
 import RoModel.Drivers.Overlap
 import RoModel.Drivers.Timed
+import RoModel.Drivers.Plugin
 namespace Ro.Driver
 
 def handlers : List (String × (Case → String)) := [
@@ -18,7 +19,8 @@ def handlers : List (String × (Case → String)) := [
   ("cancel", Drivers.Cancel.run),
   ("overlap", Drivers.Overlap.run),
   ("leak", Drivers.Cancel.runLeak),
-  ("timed", Drivers.Timed.run)
+  ("timed", Drivers.Timed.run),
+  ("plugin", Drivers.Plugin.run)
 ]
 
 def runCase (c : Case) : String :=
